@@ -271,6 +271,21 @@ def gen_cases(ck):
         cases.append({"mode": "raw", "line": cc.csv_line("\n".join(rows) + "\n", 0, -1, False, 0)})
         rows = ["%d,zz" % i for i in range(k + 1)] + ["%d,z%s" % (i, "z" * (i % 3)) for i in range(5)]
         cases.append({"mode": "raw", "line": cc.csv_line("\n".join(rows) + "\n", 44, -1, False, 0)})
+    # 3f. EXPLICIT delimiter with a GUESSED header on tables where the sniffer's own delimiter guess is another
+    #     candidate (it occurs once in every row, inside a text cell, and precedes the real delimiter in the sniffer's
+    #     order): the explicit delimiter must be honoured.  Header-less, fixed-width cells, so that the header guess
+    #     (made by the sniffer on ITS delimiter) is NO_HEADER either way.
+    for _ in range(40 * n):
+        d, c = rng.choice([(124, 58), (124, 59), (124, 44), (59, 44), (59, 58), (58, 44)])
+        nnum = rng.randint(1, 3)
+        nrows = rng.randint(3, 10)
+        cells = [[str(rng.randint(10, 99)) for _ in range(nnum + 1)] + ["%d%s%d" % (rng.randint(10, 99), chr(c), rng.randint(10, 99))]
+                 for _ in range(nrows)]
+        t = {"delim": d, "ncols": nnum + 2, "nrows": nrows, "out": 0, "out_kind": "num", "kinds": ["num"] * (nnum + 1) + ["text"],
+             "cells": cells, "header": None}
+        txt = table_text(t, rng, tame=True)
+        for h in (-1, 0):
+            cases.append({"mode": "csv", "table": t, "line": cc.csv_line(txt, d, h, False, 0)})
     # 4. src_problem + the program Xi
     for _ in range(150 * n):
         cl = rng.random() < 0.4
@@ -283,6 +298,23 @@ def gen_cases(ck):
     for _ in range(150 * n):
         t, xml = xrff_case(rng)
         cases.append({"mode": "xrff", "table": t, "line": "xrff fixed %s N" % cc.hx(xml)})
+    # 5b. XRFF with a filter hook that looks at a cell POSITION of the instance as written in the file (before the
+    #     output value is moved to the front), output attribute not the first one
+    for _ in range(80 * n):
+        t, xml = xrff_case(rng)
+        if t["out"] == 0:
+            continue
+        k = rng.randint(0, t["out"])
+        if any(r[k] != r[k].strip(cc.WS) or r[k] == "" for r in t["cells"]):
+            continue
+        val = rng.choice(t["cells"])[k]
+        keep = [r for r in t["cells"] if r[k] != val]
+        if len(keep) < 1:
+            continue
+        if t["out_kind"] == "class" and len({r[t["out"]].strip(cc.WS) for r in keep}) < 2:
+            continue
+        cases.append({"mode": "xrff", "table": t, "rows": keep,
+                      "line": "xrff fixed %s E:%d:%s" % (cc.hx(xml), k, cc.hx(val))})
     # 6. parse_line alone: rendered records (oracle: the record comes back) and raw lines
     for _ in range(400 * n):
         d = rng.choice(cc.DELIMS)
